@@ -75,7 +75,7 @@ def expand(fmt, env, known):
 
 def tokens(dsmax):
     t = [b'a', b'L' * 300, b'%', b'{', b'}', b':', b'%{',
-         b'%{snoopy_literal:xy}', b'%{snoopy_literal:}', b'%{snoopy_literal:a:b}', b'%{env:V1}', b'%{env:V2}', b'%{env:V3}',
+         b'%{snoopy_literal:xy}', b'%{snoopy_literal:}', b'%{snoopy_literal}', b'%{snoopy_literal:a:b}', b'%{env:V1}', b'%{env:V2}', b'%{env:V3}',
          b'%{filename}', b'%{cmdline}', b'%{noop}', b'%{failure}', b'%{nosuch}', b'%{nosuch:arg}', b'%{}', b'%{:}', b'%{abc',
          b'%{a%{snoopy_literal:b}}']
     for k in (98, 99, 100, 101):
